@@ -51,7 +51,7 @@ func vAddOp(sw *spec.Swagger, method, path string, op *spec.Operation) {
 
 // one security requirement list out of a small catalogue; nil means "not specified"
 func vSecurityChoice(tag string, allowNil bool) ([]map[string][]string, bool) {
-	n := 6
+	n := 7
 	k := vChoice(tag, n)
 	switch k {
 	case 0:
@@ -67,6 +67,8 @@ func vSecurityChoice(tag string, allowNil bool) ([]map[string][]string, bool) {
 		return []map[string][]string{{"key": {}, "oauth": {"read"}}}, true // AND
 	case 4:
 		return []map[string][]string{{"key": {}}, {"basic": {}}}, true // OR
+	case 6:
+		return []map[string][]string{{"ghost": {}}}, true // names a scheme that is not declared: must fail closed
 	default:
 		return []map[string][]string{{"basic": {}, "key": {}}, {"oauth": {"read", "write"}}}, true
 	}
@@ -136,6 +138,11 @@ func VerifC06Security() {
 			var want []string
 			for name, scopes := range alt {
 				want = append(want, name+":"+strings.Join(scopes, ","))
+				d, declared := sw.SecurityDefinitions[name]
+				_ = d
+				if !declared {
+					continue
+				}
 				ps, ok := planned[name]
 				vAssert(ok, "a scheme required by an operation has no planned authenticator")
 				if ok {
